@@ -352,3 +352,39 @@ func fixedArrayLen(v ssa.Value) (int64, bool) {
 	}
 	return at.Len(), true
 }
+
+// rangeEndRule: a range end handed to a kernel is the end of the array, not the end minus some coordinates.
+func rangeEndRule(p *core.Program, r *core.Report, rule string, floor int, rels ...string) {
+	r.Rule(rule, "no call in these packages hands `len(x) - k*stride` (k > 0) to an integer parameter named end* of a module function that walks a flat array: the kernel's own loop bound already stops one segment early, so an end shortened by the caller drops the closing segment of every ring or line", floor)
+	all := strideInfo(p)
+	for _, fn := range pkgFuncs(p, rels...) {
+		si := all[fn]
+		if si == nil {
+			continue
+		}
+		n := 0
+		for _, c := range eng.Calls(fn) {
+			callee := eng.StaticCallee(c)
+			if callee == nil || !core.InModule(callee) {
+				continue
+			}
+			for i, prm := range callee.Params {
+				if i >= len(c.Common().Args) || !strings.HasPrefix(strings.ToLower(prm.Name()), "end") {
+					continue
+				}
+				if b, ok := prm.Type().Underlying().(*types.Basic); !ok || b.Info()&types.IsInteger == 0 {
+					continue
+				}
+				n++
+				key := fmt.Sprintf("%s->%s.%s#%d", short(fn), callee.Name(), prm.Name(), n)
+				base, m, _, ok := si.LinOf(c.Common().Args[i])
+				_, isLen := eng.LenOf(base)
+				if ok && base != nil && isLen && m != 0 {
+					r.Bad(rule, key, p.Pos(c.Pos()), fmt.Sprintf("the range end handed to %s is len(...)%+d*stride: the last %d coordinate(s) of the array are left out", callee.Name(), m, -m))
+				} else {
+					r.OK(rule, key, p.Pos(c.Pos()), true, "not a shortened length")
+				}
+			}
+		}
+	}
+}
